@@ -385,3 +385,48 @@ Definition cum_case_exact (g : mol) (mapping : list (Z * Z)) (to_del : list Z) (
 Definition stereo_case_exact (sth hs : list Z) (g : mol) (obs : list (Z * list Z * option bool)) : bool :=
   forallb (fun o => list_eqb Z.eqb (th_env (fun x => zmem x hs) g (fst (fst o))) (snd (fst o)) &&
                     option_eqb Bool.eqb (untouched_label sth g (fst (fst o))) (snd o)) obs.
+
+(* ====================================================================================================
+   Intermediate states of BaseReactor._patcher (the same four phases as Reactor.patcher, each result kept):
+     after the loop over the replacement atoms     : new._atoms / new._bonds (all rows empty) / mapping / max_atom
+     after the loop over the replacement bonds     : new._bonds                      (at `patched_atoms = set(new)`)
+     after the loop over the atoms of the structure: new._atoms, new._bonds          (at `for n, bs in sbonds.items()`)
+     at the end                                     : the product and the extended mapping
+   ==================================================================================================== *)
+Definition patcher_states (g : mol) (mapping : list (Z * Z)) (tpl : template) (to_delete : list Z)
+  : pyres (pstate * adjT * (list (Z * atom) * adjT) * (mol * list (Z * Z))) :=
+  match zmax_list (ids g) with
+  | None => Err ValueError
+  | Some mx =>
+      match fold_res (patch_atom g) (t_atoms tpl) (mkP [] [] mapping mx) with
+      | Err e => Err e
+      | Ok s =>
+          match fold_res (patch_bonds_of (p_map s)) (t_bonds tpl) (p_adj s) with
+          | Err e => Err e
+          | Ok adj2 =>
+              let patched := keys (p_atoms s) in
+              let st3 := fold_left (keep_atom patched to_delete) (m_atoms g) (p_atoms s, adj2) in
+              match fold_res (keep_bonds_of patched to_delete) (m_adj g) (snd st3) with
+              | Err e => Err e
+              | Ok adj4 => Ok (s, adj2, st3, (mkMol (fst st3) adj4, p_map s))
+              end
+          end
+      end
+  end.
+Definition patcher_states_with (g : mol) (mapping : list (Z * Z)) (to_del : list Z) (tpl : template) :=
+  match get_deleted (graph_of g) mapping to_del with
+  | Err e => Err e
+  | Ok del => patcher_states g mapping tpl del
+  end.
+(* runner: the observed intermediate states (atom numbers in dict order; rows with neighbour order and bond order) *)
+Definition adj_struct_eqb (a b : adjT) : bool := list_eqb (pair_eqb Z.eqb (list_eqb (pair_eqb Z.eqb bond_struct_eqb))) a b.
+Definition states_eqb (model : pyres (pstate * adjT * (list (Z * atom) * adjT) * (mol * list (Z * Z))))
+  (o1_atoms : list Z) (o1_map : list (Z * Z)) (o2_adj : adjT) (o3_atoms : list Z) (o3_adj : adjT) : bool :=
+  match model with
+  | Err _ => false
+  | Ok (s, adj2, st3, _) =>
+      list_eqb Z.eqb (keys (p_atoms s)) o1_atoms && list_eqb Z.eqb (keys (p_adj s)) o1_atoms &&
+      list_eqb (pair_eqb Z.eqb Z.eqb) (p_map s) o1_map &&
+      adj_struct_eqb adj2 o2_adj &&
+      list_eqb Z.eqb (keys (fst st3)) o3_atoms && adj_struct_eqb (snd st3) o3_adj
+  end.
